@@ -1,8 +1,2 @@
-import SMD.Properties.C04
-import SMD.Properties.C05
-import SMD.Properties.C07
-import SMD.Properties.C08
 import SMD.Properties.C15
 import SMD.Properties.C17
-import SMD.Properties.C19
-import SMD.Properties.C20
